@@ -1,6 +1,7 @@
 """Replay behaviours of spec/AsyncRef.tla against the real Parameters._async_ref on a
 single-step event loop owned by the driver (every behaviour is deterministic)."""
 import asyncio
+import contextvars
 import warnings
 
 from harness.core import import_param
@@ -11,7 +12,7 @@ warnings.simplefilter("ignore")
 
 
 class T(param.Parameterized):
-    p = param.Parameter(default=0, allow_refs=True)
+    p = param.Integer(default=0, allow_refs=True)
 
 
 def fstate(f):
@@ -19,6 +20,18 @@ def fstate(f):
 
 
 def replay(beh, opts):
+    # every behaviour twice: a fresh function object per assignment, and one function object (per kind)
+    # assigned again and again -- its n-th call awaits the n-th assignment's awaitables
+    res = None
+    for shared in (False, True):
+        res = _replay(beh, opts, shared)
+        if res["status"] != "ok":
+            res["msg"] = "[%s] %s" % ("one function object re-assigned" if shared else "fresh functions", res.get("msg"))
+            break
+    return res
+
+
+def _replay(beh, opts, shared):
     steps = beh["steps"]
     loop = StepLoop()
     asyncio._set_running_loop(loop)
@@ -27,19 +40,31 @@ def replay(beh, opts):
         t = T()
         futs = {}
         kinds = {}
+        # which awaitables an invocation of the shared function waits for is fixed when the task is created
+        # (a Task captures the context of its creator), not when its body first runs
+        bound = contextvars.ContextVar("awaitables")
+
+        async def shared_co():
+            return await bound.get()[0]
+
+        async def shared_gen():
+            f1, f2 = bound.get()
+            yield await f1
+            yield await f2
         for k, st in enumerate(steps):
             a = st["a"]
             bad = None
             if a == "assign":
                 i = st["i"]
                 kinds[i] = st["kind"]
-                if st["kind"] == "coro":
+                if st["kind"] in ("coro", "bad"):
                     f = loop.create_future()
                     futs[(i, 1)] = f
 
                     async def co(f=f):
                         return await f
-                    t.p = co
+                    bound.set((f,))
+                    t.p = shared_co if shared else co
                 elif st["kind"] == "gen":
                     f1, f2 = loop.create_future(), loop.create_future()
                     futs[(i, 1)], futs[(i, 2)] = f1, f2
@@ -47,12 +72,13 @@ def replay(beh, opts):
                     async def gen(f1=f1, f2=f2):
                         yield await f1
                         yield await f2
-                    t.p = gen
+                    bound.set((f1, f2))
+                    t.p = shared_gen if shared else gen
                 else:
                     t.p = 3000 + i
             elif a == "resolve":
                 i, kk = st["i"], st["k"]
-                futs[(i, kk)].set_result((2000 + 10 * i + kk) if kinds[i] == "gen" else 1000 + i)
+                futs[(i, kk)].set_result((2000 + 10 * i + kk) if kinds[i] == "gen" else "rejected" if kinds[i] == "bad" else 1000 + i)
             elif a == "tick":
                 if not loop.tick():
                     bad = ("loop", "spec runs a ready callback (%s of task %d) but the real loop has nothing ready" % (st["what"], st["t"]))
@@ -69,6 +95,8 @@ def replay(beh, opts):
             if bad:
                 return {"status": "diverge", "step": k, "kind": bad[0], "msg": bad[1], "expected": st.get("obs"), "observed": None,
                         "tags": sorted({x for s in steps[:k + 1] for x in s.get("kf", [])}), "nontrivial": True, "kf": []}
+        # (a task that failed applying a rejected result reports its ValueError to the loop: expected)
+        loop.errors = [e for e in loop.errors if not (isinstance(e.get("exception"), ValueError) and "bad" in kinds.values())]
         if getattr(loop, "errors", None):
             return {"status": "diverge", "step": len(steps) - 1, "kind": "loop_error", "msg": "exception reported to the loop: %r" % loop.errors[:1],
                     "tags": [], "nontrivial": True, "kf": []}
